@@ -197,6 +197,9 @@ func c11Alphabet(maxH int, full bool) []c11Sym {
 	}
 	for h := 1; h <= maxH; h++ {
 		a = append(a, c11Sym{"close", h}, c11Sym{"read", h}, c11Sym{"write", h}, c11Sym{"readdir", h})
+		if h == 1 {
+			a = append(a, c11Sym{"alias", h})
+		}
 		if full {
 			a = append(a, c11Sym{"fstat", h})
 		}
@@ -307,6 +310,35 @@ func c11Scenario(s c11Session) explore.Scenario {
 				}
 				var p []byte
 				hd := hstr(sym.h)
+				if sym.kind == "alias" {
+					// other spellings of an issued handle string were never issued: every request naming one must fail and
+					// touch nothing; the handle itself is unaffected (the rest of the session keeps using it)
+					for _, al := range []string{"0" + hd, "+" + hd, "00" + hd, hd + " ", " " + hd, hd + "\x00", "0x" + hd, hd + ".0"} {
+						for k, mk := range []func(uint32) []byte{
+							func(i uint32) []byte { return mustPkt(&sshFxpReadPacket{ID: i, Handle: al, Offset: 0, Len: 2}) },
+							func(i uint32) []byte { return mustPkt(&sshFxpFstatPacket{ID: i, Handle: al}) },
+							func(i uint32) []byte { return mustPkt(&sshFxpReaddirPacket{ID: i, Handle: al}) },
+							func(i uint32) []byte { return mustPkt(&sshFxpClosePacket{ID: i, Handle: al}) },
+						} {
+							id++
+							f, ok := exch(mk(id))
+							if !ok {
+								return
+							}
+							if code, isStatus := f.statusCode(); !isStatus || code == sshFxOk || f.id != id {
+								bad = append(bad, fmt.Sprintf("request %d (read/fstat/readdir/close) on %q, a spelling of handle %q that was never issued, answered %s", k, al, hd, f))
+							}
+						}
+					}
+					if h != nil && (h.calls != callsBefore || len(h.objs) != objsBefore) {
+						bad = append(bad, fmt.Sprintf("requests on never-issued spellings of handle %q reached the handlers (%d calls)", hd, h.calls-callsBefore))
+					}
+					if h == nil && snapshotTree(root, false) != snapBefore {
+						bad = append(bad, fmt.Sprintf("requests on never-issued spellings of handle %q changed the served tree", hd))
+					}
+					trace = append(trace, sym.String()+"->refused")
+					continue
+				}
 				switch sym.kind {
 				case "open":
 					p = mustPkt(&sshFxpOpenPacket{ID: id, Path: nm("f"), Pflags: sshFxfRead})
